@@ -1,13 +1,20 @@
 SPEC = {
-    'module': 'EV.Props.C17retry',
+    'module': 'EV.Props.C17fresh',
     'theorems': ['EV.Rpc.C17_headers_cap', 'EV.Rpc.C17_headers', 'EV.Rpc.C17_history',
                  'EV.Rpc.C17_invalidate_any',
                  'EV.Rpc.C17_history_cache', 'EV.Rpc.C17_get_history', 'EV.Rpc.C17_subscribe',
                  'EV.Rpc.C17_notify', 'EV.Rpc.C17_invalidate',
-                 'EV.Index.C17_retry_attempt', 'EV.Index.C17_retry_bounded', 'EV.Index.C17_retry_whole'],
+                 'EV.Index.C17_retry_attempt', 'EV.Index.C17_retry_bounded', 'EV.Index.C17_retry_whole',
+                 'EV.HistFresh.C17_fresh_cache', 'EV.HistFresh.C17_fresh_quiescent', 'EV.HistFresh.C17_fresh_CacheOK',
+                 'EV.HistFresh.C17_fresh_answer', 'EV.HistFresh.C17_fresh_answer_current',
+                 'EV.HistFresh.C17_fresh_after', 'EV.HistFresh.C17_fresh_after_quiescence', 'EV.HistFresh.C17_fresh_after_run',
+                 'EV.HistFresh.C17_fresh_sequential', 'EV.HistFresh.C17_fresh_covering',
+                 'EV.HistFresh.Orig.C17_fresh_lastTouched_counterexample',
+                 'EV.HistFresh.Orig.C17_fresh_keepRefusals_counterexample'],
     'suites': ['limits', 'system'],
     'entry': {'system': 'run_limits'},
     'assumptions': [
+        'the freshness loop of SessionManager.limited_history and the two halves of _notify_sessions (counter increment; cache deletion, with the await of _refresh_hsub_results between them) ARE now modelled (EV/Model/HistFresh.lean, agent c17fresh; not in the differential driver - the limits parts retry_window / stale_read / shrink exercise the same paths on the real server, and the three example traces were replayed on the real SessionManager by the agent): any number of concurrent requests, arbitrary interleaving, LRU eviction, a read returning ANY version between its start and the resumption; hypothesis RunOK only (a block changes the histories of its touched script hashes only).  C17_fresh_cache / _quiescent / _CacheOK: every cache entry is what a miss would compute from the current version unless a notification covering the change is pending; at quiescence the cache satisfies EV.Rpc.CacheOK (the hypothesis of the fixed-index theorems).  C17_fresh_answer(_current): every reply comes from one version current during the request, a list is the whole history and shorter than the limit, the refusal exactly when that version has >= limit entries.  C17_fresh_after*: once a script hash is not pending, every reply matches the current history (a history a reorg shrank is served again, one that grew to the limit is refused).  Counterexamples for the two seeded variants (C17-6: latest-touched check; C10-7: refusals kept) by decide.  Not stated: termination of the loop; RunOK is not derived from the block-processor model',
         'FileOK: the headers file holds height+1 headers of 80 bytes (index invariant, C01) - needed for '
         '"hex length = 160 * count"',
         'DB.limited_history(hashX, limit) returns the first `limit` entries of the confirmed history '
